@@ -195,6 +195,8 @@ def concrete_check(prog, rows, bind):
         except RelationalAlgebraError as e:
             if "row order" in str(e):
                 return (False, "", None) if must_refuse else (True, "spurious-row-order-refusal", str(e)[:120])
+            if must_refuse and "Cannot persist materialization" in str(e):
+                return True, "buried-sort-accepted", "materialization of a sorted, unsliced relation was accepted"
             return False, f"raises:{type(e).__name__}", str(e)[:120]
         except Exception as e:  # noqa: BLE001
             if must_refuse and "Cannot persist materialization" in str(e):
